@@ -206,7 +206,8 @@ def generic(args, prop, worker, cfgs, confirm, level="model_checking", extra_tas
     t0 = time.time()
     if tier == "thorough":
         os.environ["VERIF_CROSSCHECK"] = "1"
-    work = common.workdir(prop)
+    # ad-hoc selections get their own scratch directory so that they never disturb a full run
+    work = common.workdir(prop + ("_adhoc%d" % os.getpid() if (args.only or args.families) else ""))
     build_s = common.build_tool()
     tasks, meta = [], {}
     static_notes = []
@@ -374,6 +375,9 @@ def generic(args, prop, worker, cfgs, confirm, level="model_checking", extra_tas
         print(f"VIOLATION property={prop} replay={rpath}")
     if violations:
         return 1
+    if "_adhoc" in work:
+        import shutil
+        shutil.rmtree(work, ignore_errors=True)
     for rg in regressions[:30]:
         print(f"UNDECIDED-REGRESSION {rg}")
     if errors or faults or regressions:
@@ -579,7 +583,7 @@ def run_c05(args):
     n = os.environ.get("VERIF_GEN_PROGRAMS") or ("200" if tier == "thorough" else "20")
     os.environ["VERIF_GEN_PROGRAMS"] = n
     os.environ["VERIF_SEED"] = str(args.seed)
-    work = common.workdir("C05")
+    work = common.workdir("C05" + ("_adhoc%d" % os.getpid() if (args.only or args.families) else ""))
     build_s = common.build_tool()
     fams = args.families or ["gen", "plumb", "fold", "spec"]
     # compiled the way `cairo-run` does without --available-gas (no gas paths)
